@@ -36,7 +36,8 @@ def gen_template(rng):
             holes += 1
         else:
             q = bytes([rng.choice(QUOTES)])
-            body = rng.choice([b"?", b"a?b", b"", b"??", b"x", b" ? "])
+            # (a literal may END in an escaped backslash - LIKE ? ESCAPE '\\' - which closes normally)
+            body = rng.choice([b"?", b"a?b", b"", b"??", b"x", b" ? ", b"\\\\", b"?\\\\", b"a\\\\b?"])
             segs.append(q + body + q)
     # keep holes and quoted segments apart (adjacent literals would merge lexically in any SQL dialect)
     out = bytearray()
